@@ -408,6 +408,9 @@ func nextStep(g *G, w Weights) Step {
 // prelude: init + identity (local, global or both with different values).
 func prelude(g *G) []Step {
 	name, email := "Test User", "test@example.com"
+	if g.Chance(40, "drawnIdentity") {
+		name, email = g.UserName(), g.Email()
+	}
 	st := []Step{goit("init")}
 	switch g.Int(0, 3, "identMode") {
 	case 0:
